@@ -66,6 +66,10 @@ FUNCS = [
     "minmax_array",
     "any_bool",
     "first_name",
+    # multi-dimensional data reduced to ONE scalar per segment (axis=None)
+    "max_coord_all",
+    "sum_int2d_all",
+    "min_int2d_all",
 ]
 SPREADS = ["int", "float2d", "str", "bool"]
 INDEX_FORMS = ["int64", "list", "int32", "uint16"]
@@ -279,6 +283,13 @@ def make_function(name, arr, atoms, rng):
         return rng.integers(0, 3, n) == 0, np.any, None
     if name == "first_name":
         return arr.res_name.copy(), _first, None
+    if name == "max_coord_all":
+        coord = arr.coord if arr.coord.ndim == 2 else arr.coord[0]
+        return coord, np.max, None
+    if name == "sum_int2d_all":
+        return rng.integers(-9, 9, (n, 3)), np.sum, None
+    if name == "min_int2d_all":
+        return rng.integers(-99, 99, (n, 2)), np.min, None
     raise ValueError(name)
 
 
@@ -341,6 +352,21 @@ def run_segments(case, kind):
     nseg = len(starts)
     o.label("stack" if case["depth"] else "array", f"segments={min(nseg, 5)}{'+' if nseg > 5 else ''}")
     repeated = _labels_for_runs(o, case["runs"])
+
+    # ---- history: the same array object was segmented before with other annotation values, which
+    # were then edited in place (no state may survive between the calls)
+    if n > 1 and case["seed"] % 2 == 0:
+        o.label("annotations_edited_in_place_after_a_first_call")
+        keep = {k: getattr(arr, k).copy() for k in ("chain_id", "res_id", "ins_code", "res_name")}
+        arr.res_id[:] = np.arange(n) // 2
+        arr.chain_id[:] = "Q"
+        arr.ins_code[:] = ""
+        arr.res_name[:] = "DCY"
+        f["starts"](arr)
+        f["count"](arr)
+        f["starts"](arr, add_exclusive_stop=True)
+        for k, v in keep.items():
+            getattr(arr, k)[:] = v
 
     # ---- boundaries
     got_starts = f["starts"](arr)
